@@ -159,3 +159,15 @@ func solve(script string, timeoutS int, only string) solveResult {
 	statMu.Unlock()
 	return final
 }
+
+// solveStaged first asks z3 5.1.0 alone with a short timeout (it wins most
+// races), then races the whole portfolio with the full timeout.
+func solveStaged(script string, timeoutS int) solveResult {
+	if os.Getenv("GVC_NOSTAGE") == "" {
+		r := solve(script, 2, "z3-5.1.0")
+		if r.Result == "unsat" || r.Result == "sat" {
+			return r
+		}
+	}
+	return solve(script, timeoutS, "")
+}
